@@ -162,3 +162,12 @@ impl<'a> core::iter::Iterator for &mut MsgFrameIter<'a> {
         mf
     }
 }
+
+/// Verification hooks: re-exports of crate-private codecs for out-of-tree proof harnesses.
+/// Only compiled with `--cfg rtcm_rs_verif`; adds no code otherwise.
+#[cfg(rtcm_rs_verif)]
+pub mod verif_hooks {
+    pub use crate::df::{assembler::Assembler, bit_value, dfs, parser::Parser};
+    #[cfg(feature = "all_msgs")]
+    pub use crate::msg::verif_codec as codec;
+}
